@@ -67,7 +67,8 @@ theorem rejSection_of_diff' (hob : BaseOpts o name) (hru : o.rejectFormat ≠ .c
     applyPatch_reject_one (splitLines bytes) h { patch0 with hunks := [h] } (applyOptsOf o)
       (Option.map (fun l => List.map (fun a => !List.isEmpty a && List.head? a != some 110) l) s0.tty)
       hrev rfl hloc hrloc hru'
-  refine ⟨patch0, info, par1, par2, r, ?_, hrfail, hrskip, hrmsgs, ?_, by rw [render, hrout], heof⟩
+  refine ⟨patch0, info, par1, par2, r, ?_, hrfail, hrskip, hrmsgs, ?_,
+    Render.render_of_map_line _ hrout (Render.linesTerminated_splitLines bytes), heof⟩
   · exact {
       operand := hob.operand, noOut := hob.noOut, pathNe := hname, cwd := hs0.cwd, hdr := hhdr,
       fmt := Or.inl hf, op := hop, pre := hpre, body := hbody, fmt2 := rfl, op2 := hop, newMode2 := hnm, file := htarget,
